@@ -15,6 +15,7 @@ func asaSpaces(ctx *core.Ctx) []*space {
 		asaSpellSpace(),
 		asaVPNSpace(),
 		asaPeerSpace(),
+		asaWebvpnSpace(),
 		asaSharedGroupSpace(),
 		asaEditSpace(),
 		noiseSpace("ASA"),
@@ -38,7 +39,7 @@ func c01Worker(ctx *core.Ctx) *core.Result {
 func init() {
 	registerSharded("C01", c01Worker, func(tier string) core.Meta {
 		return core.Meta{ID: "C01", Level: "model_checking",
-			Rule: "states = distinct device-model states (per worker, summed); transitions = runs of the real planner; enumerated: all (device,target) pairs of the spaces acl, grp, rt, bind, spell, vpn, vpn-peers (crypto map entries sharing a peer on either side), value-edit (the target with one argument token changed by a single-character edit, all tokens x all edits over 17 characters), noise (one unmodelled toplevel block with sub-commands inserted at every toplevel position of the device; additionally the script must equal the one emitted without the block), corpus (DEVICE_i/NETSPOC_i x NETSPOC_j of asa_*.t) and a breadth-first chain of approves over a target set; the emitted script is executed on the reference ASA model; oracle: managed view (anchors with references expanded by content) equal to the target's, second compare of the printed state silent, empty script only for equivalent device; non-trivial = script non-empty",
+			Rule: "states = distinct device-model states (per worker, summed); transitions = runs of the real planner; enumerated: all (device,target) pairs of the spaces acl, grp, rt, bind, spell, vpn, vpn-peers (crypto map entries sharing a peer on either side), vpn-webvpn (toplevel webvpn block added or removed together with edits of group-policy / username attributes), shared-group (one group used from the ACLs of two interfaces, duplicate group, left-over ACL), value-edit (the target with one argument token changed by a single-character edit, all tokens x all edits over 17 characters), noise (one unmodelled toplevel block with sub-commands inserted at every toplevel position of the device; additionally the script must equal the one emitted without the block), corpus (DEVICE_i/NETSPOC_i x NETSPOC_j of asa_*.t) and a breadth-first chain of approves over a target set; the emitted script is executed on the reference ASA model; oracle: managed view (anchors with references expanded by content) equal to the target's, second compare of the printed state silent, empty script only for equivalent device; non-trivial = script non-empty",
 			Assumptions: []string{
 				"reference ASA model (ciscomodel) validated against the repository's 172 DEVICE/NETSPOC/OUTPUT triples",
 				"targets with IPv6/raw parts: Sem oracle uses the tool-independent merge only where C18 covers it; otherwise only the second-compare oracle applies (counted as sem_skipped_parts)",
